@@ -21,6 +21,8 @@ var dslPatterns = [][]byte{
 	{0x13, 0xf7, 0xc0, 0x3e},
 }
 
+const numLeaves = 20
+
 func leaves(seed int64) ([]leaf, []byte) {
 	buf := dslPatterns[int(((seed%4)+4)%4)]
 	all := bytesToBits(buf)
@@ -129,28 +131,55 @@ const law3Text = `.grid as $grid | .bins | to_entries | map(.key as $i | .value.
 
 // ---- expression trees --------------------------------------------------------------
 
-// Tree is an expression: a leaf, a unary operator on a tree, or [x, y].
+// Tree is an expression: a leaf, a unary operator on a tree, or [x, y]. The law
+// sections (splice, rangekeys) also use: an array of any member count (Arr), a
+// binding `Let as $c | X` with `$c` (Var) in its body - members that are slices of ONE
+// binary value, which re-evaluating the text of the binary per member would not
+// give - and the fixed members of the splice pool (Mem).
 type Tree struct {
 	Leaf *int    `json:"leaf,omitempty"`
 	Op   *Op     `json:"op,omitempty"`
 	X    *Tree   `json:"x,omitempty"`
 	Pair []*Tree `json:"pair,omitempty"`
+	Arr  []*Tree `json:"arr,omitempty"`
+	Seq  bool    `json:"seq,omitempty"` // the node is Arr (which may be empty)
+	Let  *Tree   `json:"let,omitempty"`
+	Var  bool    `json:"var,omitempty"`
+	Mem  *int    `json:"mem,omitempty"`
 }
 
-func tLeaf(i int) *Tree       { return &Tree{Leaf: &i} }
-func tOp(o Op, x *Tree) *Tree { return &Tree{Op: &o, X: x} }
-func tPair(x, y *Tree) *Tree  { return &Tree{Pair: []*Tree{x, y}} }
-func (t *Tree) isPair() bool  { return len(t.Pair) == 2 }
-func (t *Tree) valid() bool {
+func tLeaf(i int) *Tree         { return &Tree{Leaf: &i} }
+func tOp(o Op, x *Tree) *Tree   { return &Tree{Op: &o, X: x} }
+func tPair(x, y *Tree) *Tree    { return &Tree{Pair: []*Tree{x, y}} }
+func tArr(ms ...*Tree) *Tree    { return &Tree{Arr: ms, Seq: true} }
+func tLet(c, body *Tree) *Tree  { return &Tree{Let: c, X: body} }
+func tVar() *Tree               { return &Tree{Var: true} }
+func tMem(i int) *Tree          { return &Tree{Mem: &i} }
+func (t *Tree) isPair() bool    { return len(t.Pair) == 2 }
+func (t *Tree) valid() bool     { return t.validIn(false) }
+func (t *Tree) validIn(bound bool) bool {
 	switch {
 	case t == nil:
 		return false
 	case t.Leaf != nil:
-		return *t.Leaf >= 0 && *t.Leaf < 18
+		return *t.Leaf >= 0 && *t.Leaf < numLeaves
+	case t.Mem != nil:
+		return *t.Mem >= 0 && *t.Mem < len(memPool)
+	case t.Var:
+		return bound
+	case t.Let != nil:
+		return t.Let.validIn(bound) && t.X.validIn(true)
 	case t.Op != nil:
-		return t.X.valid()
+		return t.X.validIn(bound)
+	case t.Seq:
+		for _, m := range t.Arr {
+			if !m.validIn(bound) {
+				return false
+			}
+		}
+		return true
 	case t.isPair():
-		return t.Pair[0].valid() && t.Pair[1].valid()
+		return t.Pair[0].validIn(bound) && t.Pair[1].validIn(bound)
 	}
 	return false
 }
@@ -159,8 +188,20 @@ func (t *Tree) jq(ls []leaf) string {
 	switch {
 	case t.Leaf != nil:
 		return ls[*t.Leaf].JQ
+	case t.Mem != nil:
+		return memPool[*t.Mem].JQ
+	case t.Var:
+		return "$c"
+	case t.Let != nil:
+		return "(" + t.Let.jq(ls) + " as $c | " + t.X.jq(ls) + ")"
 	case t.Op != nil:
 		return "(" + t.X.jq(ls) + " | " + t.Op.JQ() + ")"
+	case t.Seq:
+		parts := make([]string, len(t.Arr))
+		for i, m := range t.Arr {
+			parts[i] = m.jq(ls)
+		}
+		return "[" + strings.Join(parts, ", ") + "]"
 	default:
 		return "[" + t.Pair[0].jq(ls) + ", " + t.Pair[1].jq(ls) + "]"
 	}
@@ -172,29 +213,28 @@ func (t *Tree) JQ(ls []leaf, buf []byte) string { return leafPrelude(buf) + t.jq
 // Short omits the decode prelude.
 func (t *Tree) Short(ls []leaf) string { return t.jq(ls) }
 
-func (t *Tree) depth() int {
-	switch {
-	case t.Leaf != nil:
-		return 1
-	case t.Op != nil:
-		return 1 + t.X.depth()
-	default:
-		a, b := t.Pair[0].depth(), t.Pair[1].depth()
-		if b > a {
-			a = b
-		}
-		return 1 + a
-	}
-}
-
 // Ref evaluates the expression in the reference model.
-func (t *Tree) Ref(ls []leaf) *Val {
+func (t *Tree) Ref(ls []leaf) *Val { return t.refIn(ls, nil) }
+
+func (t *Tree) refIn(ls []leaf, c *Val) *Val {
 	switch {
 	case t.Leaf != nil:
 		return ls[*t.Leaf].Ref
+	case t.Mem != nil:
+		return memPool[*t.Mem].Ref
+	case t.Var:
+		return c
+	case t.Let != nil:
+		return t.X.refIn(ls, t.Let.refIn(ls, c))
 	case t.Op != nil:
-		return apply(*t.Op, t.X.Ref(ls))
+		return apply(*t.Op, t.X.refIn(ls, c))
+	case t.Seq:
+		ms := make([]*Val, len(t.Arr))
+		for i, m := range t.Arr {
+			ms[i] = m.refIn(ls, c)
+		}
+		return array(ms...)
 	default:
-		return pair(t.Pair[0].Ref(ls), t.Pair[1].Ref(ls))
+		return pair(t.Pair[0].refIn(ls, c), t.Pair[1].refIn(ls, c))
 	}
 }
